@@ -230,8 +230,11 @@ func (x *Ctx) Violate(class string, c *Cfg, extra any, detail string) {
 	x.emitLine(map[string]any{"t": "V", "v": v})
 }
 
+// Sample keeps the first case a worker sees and a seed-selected handful of later ones (written to the evidence so that a
+// reader can see what the explored cases look like).
 func (x *Ctx) Sample(v any) {
-	if len(x.st.Samples) < 6 {
+	n := len(x.st.Samples)
+	if n == 0 || (n < 6 && (uint64(x.inputIdx)*2654435761+uint64(x.seed)*40503+uint64(x.passIdx)*977)%1499 == 0) {
 		b, _ := json.Marshal(v)
 		x.st.Samples = append(x.st.Samples, b)
 	}
